@@ -64,10 +64,10 @@ Definition check_case (c : case) : list nat :=
       | _, _ => [2%nat]
       end
   | _, None => [2%nat]
-  | PHash t lk rk, Some o => ok (bag_eqb (x_hashjoin t lk rk (c_nl c) (c_nr c) L R) o)
-  | PHashSemi2 anti lk rk cond, Some o => ok (rows_eqb (x_hashsemi2 anti lk rk cond L R) o)
+  | PHash t lk rk, Some o => ok (bag_eqb (x_hashjoin t (wide_keys lk) (wide_keys rk) (c_nl c) (c_nr c) L R) o)
+  | PHashSemi2 anti lk rk cond, Some o => ok (rows_eqb (x_hashsemi2 anti (wide_keys lk) (wide_keys rk) cond L R) o)
   | PMerge t lk rk, Some o =>
-      ok (bag_eqb (x_mergejoin t lk rk (c_nl c) (c_nr c) (sorted_input lk L) (sorted_input rk R)) o)
+      ok (bag_eqb (x_mergejoin t (wide_keys lk) (wide_keys rk) (c_nl c) (c_nr c) (sorted_input lk L) (sorted_input rk R)) o)
   | PSimpleAgg aggs, Some o => ok (rows_eqb (x_simpleagg aggs L) o)
   | PHashAgg ks aggs, Some o => ok (bag_eqb (x_hashagg ks aggs L) o)
   | PSortAgg ks aggs, Some o => ok (rows_eqb (x_sortagg ks aggs (sorted_input ks L)) o)
